@@ -1,265 +1,860 @@
-"""C14 remove_tensor / derivative (structural clauses)."""
+"""C14 remove_tensor / derivative, decided by evaluating them on a model of the tensor algebra."""
 from __future__ import annotations
 
-import ast
+from fractions import Fraction
 
-from ..model import AnalysisError, U, Defs, calls_in, call_name, walk_fn, kwarg, enclosing, enclosing_stmt
-from ..pathcond import conditions
-from . import common
-from .c13 import symmetriser_normalisation
+from ..model import AnalysisError
+from . import talg, tmodel
+from .talg import Poly, ix, ModelError
 
 EXPLANATION = (
-    "R14a: prefactor guards in remove_tensor.remove (x1/2 iff the tensor has non-zero bra-ket "
-    "symmetry; x1/sqrt(n_sym+1) iff ADC amplitude, which must have bra-ket symmetry 0; the sign "
-    "from re-canonicalising the removed tensor is moved to the term). R14b: every (perms, factor) "
-    "of the removed tensor's symmetry is applied once with its factor, starting from the "
-    "unpermuted term (both functions); derivative normalises by 1/(n_sym+1). R14c: every target "
-    "or repeated index replaced on the removed tensor is paired with a KroneckerDelta(old, new), "
-    "new of the same (space, spin) and outside the used names. R14d (A6): process_term lowers an "
-    "exponent > 1 by one and multiplies the lowered power back; derivative's placeholder "
-    "x**exponent is back-substituted by the BASE of the tensor. R14e: product rule over all "
-    "occurrences, block keys from the space/spin of the removed tensor, contributions "
-    "accumulated per key. R08g: minimize_tensor_indices (used by both functions) on all index tuples of length <= 3.")
-ASSUMPTIONS = ["the round-trip value is not decided"]
+    "simplify.remove_tensor and derivative.derivative are evaluated by the abstract evaluator (sa.symex) on concrete small "
+    "expressions over a model of the library's tensor algebra (sa/rules/talg.py, tmodel.py: canonical (anti)symmetric "
+    "tensors with bra-ket symmetry, amplitudes, non-symmetric tensors, Kronecker deltas, mutable Expr containers with "
+    "assumptions, index permutations, minimize_tensor_indices / get_lowest_avail_indices / get_symbols / simplify / diff as "
+    "documented primitives). Nothing depends on local names, statement layout or nested helper names; the entry points "
+    "are the public functions and their parameters. For every scenario the returned {block key: expression} is compared "
+    "with the closed formula written down independently: remove: B = s h sum_{g in G(D')} chi(g) g(R') with R' the "
+    "remainder times delta(old,new) for every replaced target / repeated tensor index after the minimisation "
+    "permutations, D' the removed tensor on the minimised indices (class, name, index groups and bra-ket symmetry kept; "
+    "checked on the constructor call), s its canonicalisation sign, h = 1/2 iff bra-ket symmetry +-1, 1/sqrt(|G|) iff ADC "
+    "amplitude (which must have bra-ket symmetry 0); derivative: sum over occurrences k of e_k D_k^(e_k-1) s_k^(e_k) (1/|G|) "
+    "sum_g chi(g) g(R_k) keyed by (space, spin) of the minimised tensor. R14a: prefactor table over tensor class x "
+    "bra-ket symmetry x ADC amplitude incl. a minimisation that leaves the groups unsorted (sign moved to the term) and "
+    "the rebuilt tensor. R14b: every block expression carries the symmetry of the removed tensor block (g(B) = chi(g) B "
+    "checked directly) and, re-contracted with the tensor block, gives kappa times the original term up to renaming of "
+    "contracted indices (kappa = |G| h: the documented normalisation; deltas resolved); derivative contracted with a "
+    "variation of the tensor's symmetry equals the first-order change. R14c: target and repeated indices on the tensor "
+    "(deltas, fresh lowest unused names of the same space and spin, provided target indices extended by the tensor "
+    "indices). R14d: exponents (lowered one by one, recursion until none is left, exponents < 1 refused; derivative "
+    "e x^(e-1) with the base re-inserted). R14e: several occurrences (sorted block-key tuples, product rule), several "
+    "terms (accumulation per key), terms without the tensor under ('none',), spin block keys, input guards, "
+    "assumptions preserved, the input expression unchanged, no mutable Expr shared between keys. R08g: the index "
+    "primitives the model takes for granted are themselves evaluated from the library source: minimize_tensor_indices on "
+    "all index tuples of length <= 3 (targets stay, lowest unused non-target names in order of first appearance, the "
+    "returned transpositions reproduce the result), get_lowest_avail_indices on a table of requests, Container.permute "
+    "(composition of the transpositions in the given order). Thorough tier: the table tensor class x bra-ket symmetry x "
+    "group sizes (0..3 upper/lower) x spaces, with and without reserved target names, for both functions.")
+ASSUMPTIONS = [
+    "the vocabulary (Expr/Term/Obj containers incl. in-place operators of Expr, tensor classes and their canonical "
+    "form, KroneckerDelta, Term.symmetry = all index permutations within (space, spin) classes mapping the term onto "
+    "+-itself, get_symbols, simplify = value preserving, sympy diff/subs/Pow/sqrt/Rational) behaves as modelled in "
+    "sa/rules/talg.py and tmodel.py; minimize_tensor_indices, get_lowest_avail_indices and Container.permute are "
+    "checked against the model from source (R08g)",
+    "unsorted index groups after the minimisation do not occur with the library's minimize_tensor_indices once target "
+    "indices have been replaced on the tensor; the sign clause is decided under the weaker contract 'some renaming by "
+    "transpositions onto low non-target names' (scenario 'unsorted groups')",
+    "bounded: the listed scenarios (tensors of rank <= 6, at most three occurrences, exponents <= 3)",
+    "the re-contraction (round trip) is decided term by term (one term, any number of occurrences: B x D'_1 x ... x D'_n = "
+    "kappa_1 ... kappa_n x term); for expressions of several terms the closed formula is compared; derivative with a "
+    "target index on the tensor: closed formula only",
+    "which of several occurrences is removed first is taken from the model's object order (canonical order of factors)",
+]
 
-RM = "simplify:remove_tensor."
-
-
-def r14a(ctx):
-    rule = "R14a"
-    fn = ctx.model.fn(RM + "remove")
-    muls = [n for n in walk_fn(fn) if isinstance(n, ast.AugAssign) and U(n.target) == "term" and isinstance(n.op, ast.Mult)]
-    half = [m for m in muls if U(m.value) == "Rational(1, 2)"]
-    ok = len(half) == 1 and {("bra_ket_sym is None", False), ("bra_ket_sym is S.Zero", False)} <= conditions(half[0])
-    ctx.check(rule, fn, ok, "x1/2 iff the removed tensor has bra-ket symmetry +-1",
-              "the factor 1/2 is not applied exactly for tensors with non-zero bra-ket symmetry", key="half")
-    sq = [m for m in muls if "sqrt" in U(m.value)]
-    ok = len(sq) == 1 and U(sq[0].value).replace(" ", "") == "1/sqrt(len(tensor_sym)+1)" \
-        and ("is_adc_amplitude(t_name)", True) in conditions(sq[0])
-    ctx.check(rule, fn, ok, "ADC amplitudes: x 1/sqrt(n_sym + 1)", "amplitude-vector normalisation changed", key="sqrt")
-    ra = [n for n in walk_fn(fn) if isinstance(n, ast.Raise) and ("is_adc_amplitude(t_name)", True) in conditions(n)
-          and ("bra_ket_sym is S.Zero", False) in conditions(n)]
-    ctx.check(rule, fn, len(ra) == 1, "ADC amplitudes with bra-ket symmetry refused", "bra-ket check for amplitudes removed", key="adc bks")
-    pf = [m for m in muls if U(m.value) == "tensor.prefactor"]
-    ctx.check(rule, fn, len(pf) == 1, "sign of the re-canonicalised tensor moved to the term", "tensor sign is not moved to the term",
-              key="tensor sign")
-    ts = [a for a in common.assigns_to(fn, "tensor_sym")]
-    ctx.check(rule, fn, len(ts) == 1 and U(ts[0].value) == "tensor.symmetry()", "symmetry of the rebuilt (minimised) tensor",
-              "symmetry source changed", key="tensor_sym")
-    # rebuilt tensor: Amplitude indices = lower + upper; others upper + lower
-    a = {}
-    for n in walk_fn(fn):
-        if isinstance(n, ast.Assign) and U(n.targets[0]) == "(upper, lower)":
-            cs = conditions(n)
-            a["amp" if ("isinstance(raw_tensor, Amplitude)", True) in cs else "other"] = U(n.value)
-    ctx.check(rule, fn, a == {"amp": "(indices[n_l:], indices[:n_l])", "other": "(indices[:n_u], indices[n_u:])"},
-              "index order of the tensor kinds respected when rebuilding", f"rebuild slices {a}", key="rebuild slices")
-    nn = {U(x.targets[0]): U(x.value) for x in walk_fn(fn) if isinstance(x, ast.Assign) and U(x.targets[0]) in ("n_l", "n_u")}
-    ctx.check(rule, fn, nn == {"n_l": "len(raw_tensor.lower)", "n_u": "len(raw_tensor.upper)"}, "group sizes from the removed tensor",
-              f"{nn}", key="group sizes")
-    rb = [c for c in calls_in(fn) if U(c.func) == "raw_tensor.__class__"]
-    ctx.check(rule, fn, len(rb) == 1 and [U(x) for x in rb[0].args] == ["raw_tensor.name", "upper", "lower", "bra_ket_sym"],
-              "same class, name and bra-ket symmetry", "rebuilt tensor arguments changed", key="rebuild args")
-    mn = [n for n in walk_fn(fn) if isinstance(n, ast.Assign) and U(n.targets[0]) == "(indices, perms)"]
-    ok = len(mn) == 1 and U(mn[0].value) == "minimize_tensor_indices(indices, target_indices)"
-    ctx.check(rule, fn, ok, "tensor indices minimised, targets excluded", "minimisation call changed", key="minimise")
-    pm = [n for n in walk_fn(fn) if isinstance(n, (ast.Assign, ast.AnnAssign)) and U(n.value) == "term.permute(*perms)"]
-    ctx.check(rule, fn, len(pm) == 1, "the same permutations applied to the remaining term", "permutations not applied to the term",
-              key="permute term")
+RM = "simplify:remove_tensor"
+DV = "derivative:derivative"
 
 
-def r14b(ctx):
-    rule = "R14b"
-    fn = ctx.model.fn(RM + "remove")
-    lp = [n for n in walk_fn(fn) if isinstance(n, ast.For) and U(n.iter) == "tensor_sym.items()"]
-    ok = len(lp) == 1 and U(lp[0].target) == "(perms, sym_factor)" and len(lp[0].body) == 1 \
-        and U(lp[0].body[0]) == "symmetrized_term += term.copy().permute(*perms) * sym_factor"
-    ctx.check(rule, fn, ok, "remove: every symmetry operation applied once with its factor",
-              "remove: symmetrisation loop changed", key="remove sym loop")
-    st = [a for a in common.assigns_to(fn, "symmetrized_term") if isinstance(a, ast.Assign)]
-    ctx.check(rule, fn, len(st) == 1 and U(st[0].value) == "term.copy()", "starts from the unpermuted term", "symmetrisation start changed",
-              key="remove sym start")
-    r = common.returns_of(fn)
-    ctx.check(rule, fn, U(r[-1].value) == "simplify(symmetrized_term)", "symmetrised term returned", "return changed", key="remove return")
-    d = ctx.model.fn("derivative:derivative")
-    lp = [n for n in walk_fn(d) if isinstance(n, ast.For) and U(n.iter) == "tensor_sym.items()"]
-    ok = len(lp) == 1 and len(lp[0].body) == 1 and U(lp[0].body[0]).replace(" ", "") == \
-        "symmetrized_deriv_contrib+=deriv_contrib.copy().permute(*perms).sympy*factor*x**exponent"
-    ctx.check(rule, d, ok, "derivative: every symmetry operation applied once with its factor", "derivative: symmetrisation loop changed",
-              key="deriv sym loop")
-    st = [a for a in common.assigns_to(d, "symmetrized_deriv_contrib") if isinstance(a, ast.Assign)]
-    ctx.check(rule, d, bool(st) and U(st[0].value).replace(" ", "") == "deriv_contrib.sympy*x**exponent", "starts from the unpermuted term",
-              "derivative: symmetrisation start changed", key="deriv sym start")
-    symmetriser_normalisation(ctx, rule, "derivative:derivative")
-    ts = [a for a in common.assigns_to(d, "tensor_sym")]
-    ctx.check(rule, d, len(ts) == 1 and U(ts[0].value) == "obj.symmetry()", "symmetry of the minimised tensor", "symmetry source changed",
-              key="deriv tensor_sym")
+# ---------------------------------------------------------------------------
+# building scenario values
+
+def _tokens(s):
+    out, cur = [], ""
+    for ch in s:
+        if ch.isdigit():
+            cur += ch
+        else:
+            if cur:
+                out.append(cur)
+            cur = ch
+    if cur:
+        out.append(cur)
+    return out
 
 
-def r14c(ctx):
-    rule = "R14c"
-    fn = ctx.model.fn(RM + "remove")
-    deltas = [c for c in calls_in(fn) if call_name(c) == "KroneckerDelta"]
-    ctx.floor(rule, "compensating deltas in remove", len(deltas), 0)
-    iters = sorted(U(enclosing(c, ast.For).iter) for c in deltas)
-    ctx.check(rule, fn, iters == ["sub.items()", "zip(idx_list, additional_indices)"],
-              "a delta for every replaced target index and every replaced repeated index",
-              f"compensating deltas exist only in the loops over {iters}; both the target-index replacement (sub.items()) and the "
-              "repeated-index replacement (zip(idx_list, additional_indices)) need one", key="delta pairing")
-    for c in deltas:
-        st = enclosing_stmt(c)
-        lp = enclosing(c, ast.For)
-        ok = isinstance(st, ast.AugAssign) and isinstance(st.op, ast.Mult) and U(st.target) == "term" \
-            and [U(a) for a in c.args] == ["s", "new_s"] and U(lp.target) == "(s, new_s)"
-        ctx.check(rule, c, ok, "delta(old, new) multiplied into the term for each replaced index",
-                  f"compensating delta `{U(st)}` changed", key=f"delta {U(lp.iter)[:20]}")
-    # replacement on the tensor indices follows the same map
-    rp = [a for a in walk_fn(fn) if isinstance(a, ast.Assign) and U(a.targets[0]) == "indices" and "sub.get" in U(a.value)]
-    ctx.check(rule, fn, len(rp) == 1 and U(rp[0].value) == "[sub.get(s, s) for s in indices]", "target indices replaced on the tensor",
-              "replacement of target indices changed", key="replace target")
-    rr = [a for a in walk_fn(fn) if isinstance(a, ast.Assign) and U(a.targets[0]) == "indices[indices_i[s].pop(1)]"]
-    ctx.check(rule, fn, len(rr) == 1 and U(rr[0].value) == "new_s", "second occurrence of a repeated index replaced",
-              "replacement of repeated indices changed", key="replace repeated")
-    la = [c for c in calls_in(fn) if call_name(c) == "get_lowest_avail_indices"]
-    ctx.floor(rule, "fresh-name requests in remove", len(la), 2)
-    for c in la:
-        ok = U(c.args[0]) == "len(idx_list)" and "used_indices" in U(c.args[1]) and U(c.args[2]) == "space"
-        ctx.check(rule, c, ok, "new names: lowest unused of the same space", f"`{U(c)[:80]}`", key=f"fresh {U(c.args[1])[:25]}")
-    gs = [c for c in calls_in(fn) if call_name(c) == "get_symbols" and U(c.args[0]) == "additional_indices"]
-    for c in gs:
-        ctx.check(rule, c, len(c.args) == 2 and U(c.args[1]) == "spins", "new indices carry the same spin", f"`{U(c)}`", key="fresh spin")
-    sp = [a for a in walk_fn(fn) if isinstance(a, ast.Assign) and U(a.targets[0]) == "spins" and U(a.value) != "None"]
-    ctx.check(rule, fn, len(sp) == 2 and all(U(a.value) == "spin * len(idx_list)" and ("spin", True) in conditions(a) for a in sp),
-              "spin string of the index key", "spin of the new indices changed", key="spins")
-    upd = [c for c in calls_in(fn) if call_name(c) == "update" and U(c.func.value) == "used_indices[idx_key]"]
-    ctx.check(rule, fn, len(upd) == 1 and U(upd[0].args[0]) == "additional_indices", "new names become unavailable",
-              "new names are not registered as used", key="used update")
-    # used names: all indices of the remaining term and of the tensor
-    u1 = [n for n in walk_fn(fn) if isinstance(n, ast.For) and U(n.iter) == "set((s for s, _ in term._idx_counter))"]
-    u2 = [n for n in walk_fn(fn) if isinstance(n, ast.For) and U(n.iter) == "indices" and any(
-        call_name(c) == "add" and "used_indices" in U(c.func.value) for c in calls_in(n))]
-    ctx.check(rule, fn, len(u1) == 1 and len(u2) >= 1, "used names = indices of the remaining term and of the tensor",
-              "collection of used names changed", key="used names")
-    tt = [n for n in walk_fn(fn) if isinstance(n, ast.If) and U(n.test) == "s.name in target_indices.get(idx_key, [])"]
-    ctx.check(rule, fn, len(tt) == 1, "target indices on the tensor detected by name within (space, spin)", "target detection changed",
-              key="target detection")
-    rep = [n for n in walk_fn(fn) if isinstance(n, ast.For) and U(n.iter) == "Counter(indices).items()"]
-    ok = len(rep) == 1 and any(isinstance(x, ast.If) and U(x.test) == "n > 1" for x in rep[0].body) \
-        and any("extend((s for _ in range(n - 1)))" in U(c) for c in calls_in(rep[0]))
-    ctx.check(rule, fn, ok, "an index occurring n times needs n-1 new indices", "repeated-index bookkeeping changed", key="repeat count")
+def _idx(names, spins=None):
+    ns = _tokens(names)
+    spins = spins or "n" * len(ns)
+    assert len(spins) == len(ns), (names, spins)
+    return [ix(n, "" if s == "n" else s) for n, s in zip(ns, spins)]
 
 
-def r14d(ctx):
-    rule = "R14d"
-    fn = ctx.model.fn(RM + "process_term")
-    be = [a for a in walk_fn(fn) if isinstance(a, ast.Assign) and U(a.targets[0]) == "(base, exponent)"]
-    ctx.check(rule, fn, len(be) == 1 and U(be[0].value) == "tensor.base_and_exponent", "base and exponent of the first occurrence",
-              "exponent source changed", key="base exponent")
-    lower = [n for n in walk_fn(fn) if isinstance(n, ast.AugAssign) and U(n.target) == "remaining_term" and "Pow(" in U(n.value)]
-    ok = len(lower) == 1 and U(lower[0].value).replace(" ", "") == "Pow(base,exponent-1)" and ("exponent > 1", True) in conditions(lower[0])
-    ctx.check(rule, fn, ok, "exponent > 1: base**(exponent-1) stays in the term", "exponent lowering changed", key="lower")
-    tb = [a for a in walk_fn(fn) if isinstance(a, ast.Assign) and U(a.targets[0]) == "tensor" and ("exponent > 1", True) in conditions(a)]
-    ok = len(tb) == 1 and U(tb[0].value) == "e.Expr(base, **tensor.assumptions).terms[0].objects[0]"
-    ctx.check(rule, fn, ok, "the removed object is the bare base", "removed object not reduced to its base", key="bare base")
-    ra = [n for n in walk_fn(fn) if isinstance(n, ast.Raise) and ("exponent < 1", True) in conditions(n)]
-    ctx.check(rule, fn, len(ra) == 1, "exponents < 1 refused", "negative exponents no longer refused", key="neg exponent")
-    # the non-recursive exit is only correct if nothing of the tensor is left in the remaining term
-    single = [r for r in common.returns_of(fn) if U(r.value) == "{tuple(t_block): remaining_term}"]
-    ctx.floor(rule, "non-recursive return of process_term", len(single), 1)
-    for r in single:
-        conds = conditions(r)
-        one_obj = ("len(tensors) == 1", True) in conds
-        no_power = any(pol and t in ("exponent == 1", "1 == exponent") for t, pol in conds) or \
-            any((not pol) and t in ("exponent > 1", "exponent >= 2") for t, pol in conds)
-        ctx.check(rule, r, one_obj and no_power, "no recursion only for a single occurrence with exponent 1",
-                  "process_term returns without recursion whenever the tensor appears as one object, although base**(exponent-1) "
-                  "was multiplied back into the remaining term: a tensor with exponent > 1 is removed only once and stays in "
-                  "the block expression", key="single occurrence")
-    back = [n for n in walk_fn(fn) if isinstance(n, ast.For) and U(n.iter) == "tensors[1:]"]
-    ok = len(back) == 1 and U(back[0].body[0]) == f"remaining_term *= {U(back[0].target)}"
-    ctx.check(rule, fn, ok, "further occurrences multiplied back", "other occurrences are not multiplied back", key="other occurrences")
-    sp = [n for n in walk_fn(fn) if isinstance(n, ast.For) and U(n.iter) == "term.objects"]
-    ok = len(sp) == 1
-    if ok:
-        iff = sp[0].body[0]
-        ok = isinstance(iff, ast.If) and U(iff.test) == "obj.name == t_name" and U(iff.body[0]) == "tensors.append(obj)" \
-            and U(iff.orelse[0]) == "remaining_term *= obj"
-    ctx.check(rule, fn, ok, "objects split into occurrences and remainder by exact name", "object split changed", key="split")
-    # derivative: placeholder must be replaced by the BASE
-    d = ctx.model.fn("derivative:derivative")
-    subs = [c for c in calls_in(d) if call_name(c) == "subs" and c.args and U(c.args[0]) == "x"]
-    ctx.floor(rule, "placeholder back-substitution in derivative", len(subs), 1)
-    for c in subs:
-        arg = U(c.args[1])
-        ok = arg.endswith(".base") or arg.endswith(".base_and_exponent[0]") or arg == "base"
-        ctx.check(rule, c, ok, "placeholder x (standing for the base in x**exponent) replaced by the tensor's base",
-                  f"the placeholder x stands for the BASE of the tensor (the term carries x**exponent), but it is replaced by "
-                  f"`{arg}`, the full object base**exponent: the exponent is applied twice", key="placeholder base")
-    ex = [a for a in common.assigns_to(d, "exponent")]
-    ctx.check(rule, d, len(ex) == 1 and U(ex[0].value) == "obj.exponent", "exponent of the occurrence", "exponent source changed",
-              key="deriv exponent")
-    df = [c for c in calls_in(d) if call_name(c) == "diff"]
-    ctx.check(rule, d, len(df) == 1 and [U(a) for a in df[0].args] == ["symmetrized_deriv_contrib", "x"], "d/dx of the symmetrised term",
-              "diff call changed", key="diff")
+def A(name, up, lo, bks=0, cls="AntiSymmetricTensor", sp=None):
+    nu = len(_tokens(up))
+    u = _idx(up, sp[:nu] if sp else None)
+    l = _idx(lo, sp[nu:] if sp else None)
+    s, f = talg.mk_tensor(cls, name, u, l, bks)
+    assert s, (name, up, lo)
+    return Poly.factor(f, 1, s)
 
 
-def r14e(ctx):
-    rule = "R14e"
-    d = ctx.model.fn("derivative:derivative")
-    inner = [n for n in walk_fn(d) if isinstance(n, ast.For) and U(n.iter) == "enumerate(tensor_obj)"]
-    ctx.floor(rule, "occurrence loops in derivative", len(inner), 2)
-    prod = [n for n in inner if enclosing(n, ast.For) in inner]
-    ok = len(prod) == 1 and isinstance(prod[0].body[0], ast.If) and U(prod[0].body[0].test) == "i != other_i" \
-        and U(prod[0].body[0].body[0]) == "deriv_contrib *= other_obj"
-    ctx.check(rule, d, ok, "product rule: all other occurrences stay", "product rule changed", key="product rule")
-    st = [a for a in common.assigns_to(d, "deriv_contrib") if isinstance(a, ast.Assign)]
-    ctx.check(rule, d, bool(st) and U(st[0].value) == "remaining_obj.copy()", "contribution starts from the remainder",
-              "start of the contribution changed", key="start")
-    sg = [n for n in walk_fn(d) if isinstance(n, ast.AugAssign) and U(n.target) == "deriv_contrib" and U(n.value) == "factor"]
-    ok = len(sg) == 1 and ("(factor := obj.prefactor) < 0", True) in conditions(sg[0]) or \
-        (len(sg) == 1 and any("obj.prefactor" in t and pol for t, pol in conditions(sg[0])))
-    ctx.check(rule, d, ok, "sign from re-canonicalising the tensor moved to the term", "sign handling changed", key="sign")
-    key = [a for a in common.assigns_to(d, "key")]
-    ctx.check(rule, d, len(key) == 1 and U(key[0].value) == "(obj.space, obj.spin)", "block key: space and spin of the minimised tensor",
-              "block key changed", key="deriv key")
-    acc = [n for n in walk_fn(d) if isinstance(n, ast.AugAssign) and U(n.target) == "derivative[key]"]
-    ctx.check(rule, d, len(acc) == 1 and isinstance(acc[0].op, ast.Add) and U(acc[0].value) == "symmetrized_deriv_contrib",
-              "contributions accumulated per block", "accumulation changed", key="deriv acc")
-    mn = [c for c in calls_in(d) if call_name(c) == "minimize_tensor_indices"]
-    ctx.check(rule, d, len(mn) == 1 and [U(a) for a in mn[0].args] == ["obj.idx", "target_names_by_space"], "indices minimised, targets kept",
-              "minimisation call changed", key="deriv minimise")
-    pm = [a for a in walk_fn(d) if isinstance(a, ast.Assign) and U(a.value) == "deriv_contrib.permute(*perms)"]
-    po = [a for a in walk_fn(d) if isinstance(a, (ast.Assign, ast.AnnAssign)) and U(a.value) == "obj.permute(*perms).terms[0]"]
-    ctx.check(rule, d, len(pm) == 1 and len(po) == 1, "same permutations applied to the term and to the tensor",
-              "permutation of term/tensor changed", key="deriv permute")
-    # remove_tensor: keys and accumulation
-    pt = ctx.model.fn(RM + "process_term")
-    tb = {}
-    for a in walk_fn(pt):
-        if isinstance(a, ast.Assign) and U(a.targets[0]) == "t_block":
-            tb["nospin" if ("all((c == 'n' for c in spin))", True) in conditions(a) else "spin"] = U(a.value)
-    ctx.check(rule, pt, tb == {"nospin": "[tensor.space]", "spin": "[f'{tensor.space}_{spin}']"}, "block key from the removed tensor",
-              f"block keys {tb}", key="rm key")
-    k = [a for a in common.assigns_to(pt, "key")]
-    ctx.check(rule, pt, len(k) == 1 and U(k[0].value) == "tuple(sorted(t_block + list(blocks)))", "several occurrences: sorted tuple of blocks",
-              "combined key changed", key="rm combined key")
-    top = ctx.model.fn("simplify:remove_tensor")
-    for f in (pt, top):
-        acc = [n for n in walk_fn(f, nested=False) if isinstance(n, ast.AugAssign) and U(n.target) == "ret[key]"]
-        ctx.check(rule, f, len(acc) == 1 and isinstance(acc[0].op, ast.Add) and U(acc[0].value) == "contrib",
-                  f"{f.name}: contributions accumulated per key", f"{f.name}: accumulation changed", key=f"{f.name} acc")
-    nn = [r for r in common.returns_of(pt) if U(r.value) == "{('none',): term}"]
-    ctx.check(rule, pt, len(nn) == 1 and ("tensors", False) in conditions(nn[0]), "terms without the tensor kept under 'none'",
-              "terms without the tensor are lost", key="none key")
-    rc = [c for c in calls_in(pt) if call_name(c) == "remove"]
-    ctx.check(rule, pt, len(rc) == 1 and [U(a) for a in rc[0].args] == ["remaining_term.terms[0]", "tensor", "target_indices"],
-              "first occurrence removed from the remaining term", "remove call changed", key="remove call")
+def N(name, idx, sp=None):
+    return Poly.factor(("N", name, tuple(_idx(idx, sp))))
+
+
+def num(c):
+    return Poly.num(c)
+
+
+# ---------------------------------------------------------------------------
+# the expected behaviour (written on values of the algebra only)
+
+def _sas(s):
+    return talg.space_and_spin(s)
+
+
+def _targets(m, ptarget):
+    tg = ptarget if ptarget is not None else talg.einstein_target(m)
+    out = {}
+    for s in tg:
+        out.setdefault(_sas(s), set()).add(s[0])
+    return out
+
+
+def _block(f):
+    idx = talg.factor_idx(f)
+    space = "".join(talg.space_of(s[0])[0] for s in idx)
+    spin = "".join(s[1] if s[1] else "n" for s in idx)
+    return space, spin
+
+
+def _group(dp):
+    """The symmetry group of a one-tensor value: [(transpositions, character)] including the identity."""
+    return [((), 1)] + talg.symmetry(dp)
+
+
+def _on_indices(D, I2):
+    """The tensor D carrying the indices I2 (positionally, in the library's listing order): (sign, factor)."""
+    if D[0] == "A":
+        nu, nl = len(D[3]), len(D[4])
+        if D[1] == "Amplitude":
+            lower, upper = I2[:nl], I2[nl:]
+        else:
+            upper, lower = I2[:nu], I2[nu:]
+        return talg.mk_tensor(D[1], D[2], upper, lower, D[5])
+    return talg.mk_nonsym(D[1], I2)
+
+
+class Removal:
+    """What removing one tensor D from the one-term value R has to give."""
+
+    def __init__(self, R, D, targets, ptarget, is_adc, mode):
+        (m, c), = R.t.items()
+        I = list(talg.factor_idx(D))
+        used = {}
+        for s, _ in talg.idx_counter(m):
+            used.setdefault(_sas(s), set()).add(s[0])
+        for s in I:
+            used.setdefault(_sas(s), set()).add(s[0])
+        self.deltas = []
+        # target indices sitting on the tensor: fresh index + delta
+        on_t = {}
+        for s in I:
+            if s[0] in targets.get(_sas(s), ()):
+                lst = on_t.setdefault(_sas(s), [])
+                if s not in lst:
+                    lst.append(s)
+        for key, lst in on_t.items():
+            new = talg.lowest_avail(len(lst), used[key], key[0])
+            used[key] |= set(new)
+            sub = dict(zip(lst, [ix(n, key[1]) for n in new]))
+            self.deltas += list(sub.items())
+            I = [sub.get(s, s) for s in I]
+        # repeated indices: every further occurrence gets a fresh index + delta
+        rep = {}
+        for s in dict.fromkeys(I):
+            n = I.count(s)
+            if n > 1:
+                rep.setdefault(_sas(s), []).extend([s] * (n - 1))
+        for key, lst in rep.items():
+            new = talg.lowest_avail(len(lst), used.get(key, set()), key[0])
+            for s, nn in zip(lst, new):
+                ns = ix(nn, key[1])
+                self.deltas.append((s, ns))
+                I[[k for k, x in enumerate(I) if x == s][1]] = ns
+        for s, ns in self.deltas:
+            v, f = talg.mk_delta(s, ns)
+            R = R * (Poly.num(v) if f is None else Poly.factor(f))
+        I2, perms = talg.minimize(I, {k: tuple(sorted(v)) for k, v in targets.items()}, mode)
+        R = R.permute(perms)
+        self.indices = I2
+        s, D2 = _on_indices(D, I2)
+        self.sign, self.tensor = s, D2
+        self.dp = Poly.factor(D2, 1, s) if s else Poly()
+        bks = D[5] if D[0] == "A" else None
+        self.group = _group(self.dp)
+        h = Poly.num(s)
+        if bks not in (None, 0):
+            h = h * Fraction(1, 2)
+        self.error = None
+        if is_adc:
+            if bks != 0:
+                self.error = "ValueError"
+            h = h * Poly.sqrt(len(self.group), -1)
+        self.h = h
+        Rp = R * h
+        B = Poly()
+        for seq, chi in self.group:
+            B = B + Rp.permute(seq) * chi
+        self.value = B
+        self.ptarget = None if ptarget is None else tuple(sorted(set(ptarget) | set(I2), key=talg.ix_key))
+        # kappa: B contracted with D' over all index values = kappa * (R D)
+        self.kappa = h * Poly.num(len(self.group)) * Poly.num(s)
+
+
+class Expected(Exception):
+    """The reference behaviour is an exception of this class name."""
+
+
+def ref_process(term, ptarget, t_name, adc, mode, trace=None):
+    if term.is_zero():
+        return {("none",): (term, ptarget)}
+    (m, c), = term.t.items()
+    occ = [(f, e) for f, e in m if talg.factor_name(f) == t_name]
+    if not occ:
+        return {("none",): (term, ptarget)}
+    rest = Poly({tuple(x for x in m if talg.factor_name(x[0]) != t_name): c})
+    targets = _targets(m, ptarget)
+    for f, e in occ[1:]:
+        rest = rest * Poly.factor(f, e)
+    D, e = occ[0]
+    if e > 1:
+        rest = rest * Poly.factor(D, e - 1)
+    elif e < 1:
+        raise Expected("NotImplementedError")
+    if len(rest.t) != 1:
+        raise Expected("AssertionError")
+    rm = Removal(rest, D, targets, ptarget, t_name in adc, mode)
+    if rm.error:
+        raise Expected(rm.error)
+    if trace is not None:
+        trace.append((term, rest, D, rm))
+    space, spin = _block(D)
+    block = space if all(ch == "n" for ch in spin) else f"{space}_{spin}"
+    if len(occ) == 1 and e == 1:
+        return {(block,): (rm.value, rm.ptarget)}
+    out = {}
+    for t in rm.value.terms():
+        for blocks, (contrib, pt) in ref_process(t, rm.ptarget, t_name, adc, mode, trace).items():
+            key = tuple(sorted([block] + list(blocks)))
+            if key in out:
+                if out[key][1] != pt:
+                    raise Expected("TypeError")
+                out[key] = (out[key][0] + contrib, pt)
+            else:
+                out[key] = (contrib, pt)
+    return out
+
+
+def ref_remove_tensor(expr, ptarget, t_name, adc, mode, trace=None):
+    out = {}
+    for t in (expr.terms() or [Poly()]):
+        for key, (contrib, pt) in ref_process(t, ptarget, t_name, adc, mode, trace).items():
+            if key in out:
+                if out[key][1] != pt:
+                    raise Expected("TypeError")
+                out[key] = (out[key][0] + contrib, pt)
+            else:
+                out[key] = (contrib, pt)
+    return out
+
+
+def ref_derivative(expr, ptarget, t_name, trace=None):
+    out = {}
+    for term in expr.terms():
+        (m, c), = term.t.items()
+        occ = [(f, e) for f, e in m if talg.factor_name(f) == t_name]
+        rest = Poly({tuple(x for x in m if talg.factor_name(x[0]) != t_name): c})
+        targets = {k: tuple(sorted(v)) for k, v in _targets(m, ptarget).items()}
+        for k, (f, e) in enumerate(occ):
+            R = rest
+            for j, (g, eg) in enumerate(occ):
+                if j != k:
+                    R = R * Poly.factor(g, eg)
+            I2, perms = talg.minimize(talg.factor_idx(f), targets)
+            R = R.permute(perms)
+            if R.is_zero():
+                raise Expected("RuntimeError")
+            d = Poly.factor(f).permute(perms)
+            (dm, s), = d.t.items()
+            f2 = dm[0][0]
+            # dE/dD = e D^(e-1) R transforms like D^e: the characters are those of the power
+            grp = _group(Poly.factor(f2, e))
+            R = R * Fraction(1, len(grp)) * (s ** e)
+            sym = Poly()
+            for seq, chi in grp:
+                sym = sym + R.permute(seq) * chi
+            contrib = sym * Poly.factor(f2, e - 1) * e
+            key = _block(f2)
+            out[key] = out.get(key, Poly()) + contrib
+            if trace is not None:
+                trace.append((term, k, f, e, f2, s))
+    return {k: (v, ptarget) for k, v in out.items()}
+
+
+# ---------------------------------------------------------------------------
+# scenarios
+
+class Sc:
+    def __init__(self, sid, rule, what, expr, t, target=None, adc=("X", "Y"), mode="lowest", args=None, roundtrip=True):
+        self.id, self.rule, self.what, self.expr, self.t = sid, rule, what, expr, t
+        self.target = None if target is None else tuple(sorted(_idx(*target) if isinstance(target, tuple) else _idx(target),
+                                                                key=talg.ix_key))
+        self.adc, self.mode, self.args, self.roundtrip = adc, mode, args, roundtrip
+
+
+def remove_scenarios():
+    AS, SY, AM = "AntiSymmetricTensor", "SymmetricTensor", "Amplitude"
+    S = []
+    a = S.append
+    # R14a: prefactor table and the rebuilt tensor
+    a(Sc("antisym", "R14a", "antisymmetric tensor without bra-ket symmetry", num(3) * A("d", "kl", "cd") * N("x", "klcd"), "d"))
+    a(Sc("bks+ diagonal", "R14a", "bra-ket symmetric tensor, diagonal block", A("V", "kl", "mn", 1) * N("x", "klmn"), "V"))
+    a(Sc("bks+ offdiag", "R14a", "bra-ket symmetric tensor, off-diagonal block", num(2) * A("f", "j", "b", 1) * N("x", "jb"), "f"))
+    a(Sc("bks-", "R14a", "bra-ket antisymmetric tensor", A("g", "j", "k", -1) * N("x", "jk"), "g"))
+    a(Sc("symtensor", "R14a", "SymmetricTensor without bra-ket symmetry", A("s", "kl", "cd", 0, SY) * N("x", "klcd"), "s"))
+    a(Sc("symtensor bks+", "R14a", "SymmetricTensor with bra-ket symmetry", A("s", "kl", "mn", 1, SY) * N("x", "klmn"), "s"))
+    a(Sc("nonsym", "R14a", "NonSymmetricTensor", num(-2) * N("z", "kcl") * N("x", "klc"), "z"))
+    a(Sc("adc pphh", "R14a", "ADC amplitude Y^cd_kl", A("Y", "cd", "kl", 0, AM) * N("x", "klcd"), "Y"))
+    a(Sc("adc 2h1p", "R14a", "ADC amplitude Y^c_kl (more lower than upper indices)", A("Y", "c", "kl", 0, AM) * N("x", "klc"), "Y"))
+    a(Sc("adc 2p1h", "R14a", "ADC amplitude X^cd_k (more upper than lower indices)", A("X", "cd", "k", 0, AM) * N("x", "kcd"), "X"))
+    a(Sc("adc 1h", "R14a", "ADC amplitude Y_k without upper indices", A("Y", "", "k", 0, AM) * N("x", "k"), "Y"))
+    a(Sc("adc 1p", "R14a", "ADC amplitude Y^c without lower indices", A("Y", "c", "", 0, AM) * N("x", "c"), "Y"))
+    a(Sc("adc ph", "R14a", "ADC amplitude X^c_k", A("X", "c", "k", 0, AM) * N("x", "kc"), "X"))
+    a(Sc("amplitude t", "R14a", "Amplitude that is no ADC amplitude", A("t2", "cd", "kl", 0, AM) * N("x", "klcd"), "t2"))
+    a(Sc("adc bks", "R14a", "ADC amplitude with bra-ket symmetry is refused", A("Y", "k", "l", 1) * N("x", "kl"), "Y"))
+    a(Sc("adc name only", "R14a", "1/sqrt only for the ADC amplitude names", A("Y", "cd", "kl", 0, AM) * N("x", "klcd"), "Y", adc=()))
+    a(Sc("unsorted groups", "R14a", "minimisation leaving the index groups unsorted: sign moved to the term",
+         A("d", "kl", "cd") * N("x", "klcd"), "d", mode="reversed"))
+    a(Sc("unsorted groups bks-", "R14a", "minimisation forcing a bra-ket swap of an antisymmetric tensor",
+         A("g", "j", "k", -1) * N("x", "jk"), "g", mode="reversed"))
+    a(Sc("uneven groups", "R14a", "antisymmetric tensor with two upper and one lower index", A("d", "kl", "c") * N("x", "klc"), "d"))
+    # R14b: larger groups
+    a(Sc("triples", "R14b", "rank-6 tensor, |G| = 36", A("d", "klm", "cde") * N("x", "klmcde"), "d"))
+    a(Sc("mixed groups", "R14b", "occupied and virtual index in one group", A("d", "kc", "ld") * N("x", "kcld"), "d"))
+    # R14c: target and repeated indices on the tensor
+    a(Sc("targets on tensor", "R14c", "f_bc Y^ac_ij with targets i, j, a, b", A("f", "b", "c") * A("Y", "ac", "ij", 0, AM), "Y"))
+    a(Sc("target names excluded", "R14c", "target names stay reserved", A("d", "k", "c") * N("x", "kcia"), "d"))
+    a(Sc("swap collision", "R14c", "a minimal name is in use elsewhere in the term", A("d", "k", "c") * N("x", "kc") * N("y", "ij") * N("u", "ij"), "d"))
+    a(Sc("repeated nonsym", "R14c", "z_kkkl: an index three times", N("z", "kkkl") * N("w", "l"), "z"))
+    a(Sc("trace", "R14c", "d^k_k with a bare number as remainder", num(2) * A("d", "k", "k"), "d"))
+    a(Sc("repeated pair", "R14c", "V^kl_kl", A("V", "kl", "kl") * num(5), "V"))
+    a(Sc("target twice", "R14c", "a target index twice on the tensor", N("z", "iic") * N("w", "c"), "z", target="i"))
+    a(Sc("spin targets", "R14c", "spin-labelled target index on the tensor", N("u", "c", "a") * A("d", "c", "i", 0, sp="aa"), "d"))
+    a(Sc("spin repeated", "R14c", "spin-labelled repeated index", N("z", "kk", "bb") * num(3), "z"))
+    a(Sc("spin mixed", "R14c", "alpha and beta target indices", A("d", "ij", "ab", 0, sp="abab") * N("w", "jb", "bb"), "d"))
+    a(Sc("provided targets", "R14c", "target indices given explicitly", A("d", "k", "c") * N("x", "kcia"), "d", target="ia"))
+    a(Sc("provided targets on tensor", "R14c", "explicit target indices on the tensor", A("d", "i", "c") * N("x", "ca"), "d", target="ia"))
+    # R14d: exponents
+    a(Sc("square", "R14d", "5 (d^k_c)^2", num(5) * A("d", "k", "c") ** 2, "d"))
+    a(Sc("cube", "R14d", "(f^k_c)^3 with bra-ket symmetry", A("f", "k", "c", 1) ** 3, "f"))
+    a(Sc("square and single", "R14d", "(d^k_c)^2 d^l_e w_le", A("d", "k", "c") ** 2 * A("d", "l", "e") * N("w", "le"), "d"))
+    a(Sc("inverse", "R14d", "exponent -1 refused", A("d", "k", "c") ** -1 * N("w", "kc"), "d", roundtrip=False))
+    a(Sc("other power", "R14d", "powers of other tensors stay", A("d", "k", "c") * N("w", "kc") ** 2, "d"))
+    # R14e: occurrences, terms, keys, guards
+    a(Sc("two symmetric", "R14e", "f_ij f_jk z_ki with bra-ket symmetric f", A("f", "i", "j", 1) * A("f", "j", "k", 1) * N("z", "ki"), "f"))
+    a(Sc("two antisym", "R14e", "V^ij_ab V^kl_ab w_ijkl", A("V", "ij", "ab") * A("V", "kl", "ab") * N("w", "ijkl"), "V"))
+    a(Sc("two blocks", "R14e", "d_kc d_lm x_kclm: blocks of different spaces", A("d", "k", "c") * A("d", "l", "m") * N("x", "kclm"), "d"))
+    a(Sc("three", "R14e", "three occurrences", N("z", "k") * N("z", "l") * N("z", "m") * N("x", "klm"), "z"))
+    a(Sc("terms", "R14e", "several terms: same block twice, another block, a term without the tensor",
+         A("d", "k", "c") * N("x", "kc") + num(2) * A("d", "l", "e") * N("y", "le") + A("d", "k", "l") * N("u", "kl")
+         + num(7) * N("q", "mn") * N("p", "mn"), "d"))
+    a(Sc("none only", "R14e", "no term contains the tensor", N("q", "mn") * N("p", "mn") + num(2) * N("q", "ia"), "d"))
+    a(Sc("spin key", "R14e", "spin block in the key", A("d", "k", "c", 0, sp="ab") * N("x", "kc", "ab"), "d"))
+    a(Sc("zero", "R14e", "the zero expression", Poly(), "d"))
+    a(Sc("name prefix", "R14e", "tensors are told apart by their exact name", A("d", "k", "c") * A("d2", "k", "c"), "d"))
+    return S
+
+
+def derivative_scenarios():
+    AM = "Amplitude"
+    S = []
+    a = S.append
+    a(Sc("antisym", "R14b", "3 d^kl_cd x_klcd", num(3) * A("d", "kl", "cd") * N("x", "klcd"), "d"))
+    a(Sc("bks+", "R14b", "bra-ket symmetric V^kl_mn", A("V", "kl", "mn", 1) * N("x", "klmn"), "V"))
+    a(Sc("bks-", "R14b", "bra-ket antisymmetric g^j_k", A("g", "j", "k", -1) * N("x", "jk"), "g"))
+    a(Sc("nonsym", "R14b", "non-symmetric tensor", N("z", "kcl") * N("x", "klc"), "z"))
+    a(Sc("amplitude", "R14b", "amplitude Y^c_kl", A("Y", "c", "kl", 0, AM) * N("x", "klc"), "Y"))
+    a(Sc("triples", "R14b", "rank-6 tensor", A("d", "klm", "cde") * N("x", "klmcde"), "d"))
+    a(Sc("square", "R14d", "3 (d^k_c)^2", num(3) * A("d", "k", "c") ** 2, "d"))
+    a(Sc("cube", "R14d", "(f^kl_cd)^3", A("f", "kl", "cd") ** 3 * num(2), "f"))
+    a(Sc("square and single", "R14d", "(z_k)^2 z_l w_l q", N("z", "k") ** 2 * N("z", "l") * N("w", "l"), "z"))
+    a(Sc("two chained", "R14e", "t^k_l t^l_m x_mk: product rule with shared non-minimal indices", A("t", "k", "l") * A("t", "l", "m") * N("x", "mk"), "t"))
+    a(Sc("two antisym", "R14e", "V^kl_ab V^ij_ab w_klij", A("V", "kl", "ab") * A("V", "ij", "ab") * N("w", "klij"), "V"))
+    a(Sc("three", "R14e", "three occurrences", N("z", "k") * N("z", "l") * N("z", "m") * N("x", "klm"), "z"))
+    a(Sc("terms", "R14e", "several terms, same block twice, a term without the tensor",
+         A("d", "k", "c") * N("x", "kc") + num(2) * A("d", "l", "e") * N("y", "le") + A("d", "k", "l") * N("u", "kl")
+         + num(7) * N("q", "mn") * N("p", "mn"), "d"))
+    a(Sc("none", "R14e", "no occurrence: empty result", N("q", "mn") * N("p", "mn"), "d"))
+    a(Sc("target sign", "R14e", "a target index on the tensor forces a sign", A("d", "jk", "ab") * N("x", "kab"), "d", roundtrip=False))
+    a(Sc("target names", "R14e", "target names reserved", A("d", "k", "c") * N("x", "kcia"), "d"))
+    a(Sc("spin key", "R14e", "spin block in the key", A("d", "k", "c", 0, sp="ab") * N("x", "kc", "ab"), "d"))
+    a(Sc("provided targets", "R14e", "assumptions carried over", A("d", "k", "c") * N("x", "kcia"), "d", target="ia"))
+    a(Sc("swap collision", "R14e", "a minimal name is in use elsewhere", A("d", "k", "c") * N("x", "kc") * N("y", "ij") * N("u", "ij"), "d"))
+    return S
+
+
+# ---------------------------------------------------------------------------
+# evaluation
+
+def _world(sc):
+    w = tmodel.World(adc_names=sc.adc, minimize_mode=sc.mode)
+    return w, tmodel.Binding(w)
+
+
+def _assume(w, sc):
+    return w.assumptions(target=None if sc.target is None else list(sc.target), sym_tensors=("zz_marker",))
+
+
+def _evaluate(ctx, fnref, sc, make_args):
+    """(kind, value | exception name, world); kind 'diverges' if the evaluation does not terminate within the bounds."""
+    w, b = _world(sc)
+    sx = b.make(ctx.model, f"{fnref.split(':')[1]} [{sc.id}]", max_depth=24)
+    try:
+        outs = sx.run(fnref, lambda: make_args(w))
+    except AnalysisError as e:
+        if "depth exceeded" in str(e) or "recursion bound" in str(e) or "step bound" in str(e) or "loop bound" in str(e):
+            return "diverges", str(e), w
+        raise
+    if len(outs) != 1:
+        raise AnalysisError(f"C14 [{sc.id}]: {len(outs)} outcomes on a concrete scenario: {outs[:3]}")
+    o = outs[0]
+    if o.kind == "raise":
+        return "raise", o.exc, w
+    return "return", o.value, w
+
+
+def _n_occurrences(term: Poly, t_name):
+    (m, c), = term.t.items()
+    return sum(e for f, e in m if talg.factor_name(f) == t_name)
+
+
+def _proportional(got: Poly, want: Poly):
+    """lambda with got = lambda * want (a one-term scalar polynomial) or None."""
+    if got.is_zero() or want.is_zero() or len(got.t) != len(want.t):
+        return None
+    (m0, c0) = want.monos()[0]
+    for m1, c1 in got.t.items():
+        # candidate: got term m1 corresponds to want term m0
+        d = dict(m1)
+        for f, e in m0:
+            d[f] = d.get(f, 0) - e
+        try:
+            k, mm = talg._norm_mono(d)
+        except ModelError:
+            continue
+        if any(f[0] != "S" for f, _ in mm):
+            continue
+        lam = Poly({mm: k * c1 / c0})
+        if want * lam == got:
+            return lam
+    return None
+
+
+def _show(p, n=260):
+    s = repr(p)
+    return s if len(s) <= n else s[:n] + " ..."
+
+
+def _compare(ctx, fn, label, sc, kind, val, want, is_deriv):
+    """Compares an evaluated result with the expected {key: (Poly, target)} / Expected exception."""
+    rule = sc.rule
+    key = f"{label} {sc.id}"
+    prop_rule = "R14b" if is_deriv else "R14a"
+    if isinstance(want, Expected):
+        ok = kind == "raise" and val == str(want)
+        ctx.check(rule, fn, ok, f"{label} [{sc.what}]: {want} raised",
+                  f"{label} on {sc.what} ({_show(sc.expr, 120)}): expected {want}, got {kind} {val if kind != 'return' else ''}", key=key)
+        return False
+    if kind != "return":
+        ctx.bad(rule, fn, f"{label} on {sc.what} ({_show(sc.expr, 120)}) "
+                + (f"raises {val}" if kind == "raise" else f"does not terminate: {val}")
+                + f"; expected the blocks {sorted(want)}", key=key)
+        return False
+    if not isinstance(val, dict):
+        ctx.bad(rule, fn, f"{label} on {sc.what} returns {type(val).__name__}, not a dict", key=key)
+        return False
+    got = {}
+    for k, v in val.items():
+        if tmodel.kind(v) != "expr":
+            if isinstance(v, int) and v == 0:
+                got[k] = (Poly(), None, None)
+                continue
+            ctx.bad("R14e", fn, f"{label} on {sc.what}: the value under {k} is {v!r}, not an Expr", key=key + " type")
+            return False
+        got[k] = (v.attrs["val"], v.attrs["assume"], v)
+    if set(got) != set(want):
+        ctx.bad("R14e" if rule != "R14d" else rule, fn,
+                f"{label} on {sc.what} ({_show(sc.expr, 120)}): block keys {sorted(got)} instead of {sorted(want)}", key=key + " keys")
+        return False
+    ok_all = True
+    for k in sorted(want):
+        wv, wt = want[k]
+        gv, ga, rec = got[k]
+        if gv != wv:
+            ok_all = False
+            lam = _proportional(gv, wv)
+            if lam is not None:
+                ctx.bad(prop_rule, fn, f"{label} on {sc.what} ({_show(sc.expr, 120)}): block {k} is {_show(lam, 60)} times the "
+                        f"expected expression {_show(wv, 200)}", key=key + f" {k} factor")
+            else:
+                ctx.bad(rule, fn, f"{label} on {sc.what} ({_show(sc.expr, 120)}): block {k} = {_show(gv)}; expected {_show(wv)}",
+                        key=key + f" {k} value")
+    if ok_all:
+        ctx.ok(rule, fn, f"{label} [{sc.what}]: {len(want)} block(s) equal the formula", key=key)
+    # assumptions of the returned expressions
+    for k in sorted(want):
+        gv, ga, rec = got[k]
+        if ga is None:
+            continue
+        wt = want[k][1]
+        gt = None if ga["target_idx"] is None else tuple(r.attrs["_ix"] for r in ga["target_idx"])
+        okt = gt == wt and ga.get("sym_tensors") == ("zz_marker",)
+        ctx.check("R14c" if not is_deriv else "R14e", fn, okt, f"{label} [{sc.what}] {k}: assumptions / target indices of the block expression",
+                  f"{label} on {sc.what}: block {k} has target indices {gt} and sym_tensors {ga.get('sym_tensors')}; expected target "
+                  f"indices {wt} and the assumptions of the input", key=key + f" {k} assumptions")
+    # aliasing: two keys must not share one mutable Expr
+    recs = [id(got[k][2]) for k in got if got[k][2] is not None]
+    ctx.check("R14e", fn, len(recs) == len(set(recs)), f"{label} [{sc.what}]: one Expr per key",
+              f"{label} on {sc.what}: two block keys share one mutable Expr object", key=key + " alias")
+    return ok_all
+
+
+def _input_unchanged(ctx, fn, label, sc, rec, before):
+    ctx.check("R14e", fn, rec.attrs["val"] == before, f"{label} [{sc.what}]: the input expression is left as it was",
+              f"{label} on {sc.what}: the input expression was changed in place from {_show(before, 120)} to "
+              f"{_show(rec.attrs['val'], 120)}", key=f"{label} {sc.id} input")
+
+
+def check_remove(ctx, scenarios=None, guards=True, label=""):
+    fn = ctx.model.fn(RM)
+    n = 0
+    for sc in (remove_scenarios() if scenarios is None else scenarios):
+        holder = {}
+
+        def make(w, sc=sc, holder=holder):
+            holder["expr"] = w.expr(sc.expr, _assume(w, sc))
+            return dict(expr=holder["expr"], t_name=sc.t)
+        kind, val, w = _evaluate(ctx, RM, sc, make)
+        trace = []
+        try:
+            want = ref_remove_tensor(sc.expr, sc.target, sc.t, sc.adc, sc.mode, trace)
+        except Expected as e:
+            want = e
+        n += 1
+        same = _compare(ctx, fn, "remove_tensor", sc, kind, val, want, False)
+        if kind == "return":
+            _input_unchanged(ctx, fn, "remove_tensor", sc, holder["expr"], sc.expr)
+        if isinstance(want, Expected) or kind != "return" or not isinstance(val, dict):
+            continue
+        # the tensor whose symmetry is applied: the removed one on the minimised indices
+        built = [e for e in w.effects if e[0] == "tensor" and e[2] == sc.t]
+        got_f = []
+        for e in built:
+            try:
+                s, f = talg.mk_tensor(e[1], e[2], e[3], e[4], e[5]) if e[1] != "NonSymmetricTensor" else talg.mk_nonsym(e[2], e[3])
+            except ModelError:
+                s, f = 0, None
+            got_f.append(f)
+        want_f = [rm.tensor for _, _, _, rm in trace]
+        # (a tensor of that name that is built has to be one of the removed ones; building it through the constructor is
+        # not required - the symmetrisation itself is decided on the values)
+        ok = all(f in want_f for f in got_f)
+        ctx.check("R14a", fn, ok, f"remove_tensor [{sc.what}]: symmetry taken from the removed tensor on the minimised indices "
+                  f"(class, name, index groups, bra-ket symmetry kept)",
+                  f"remove_tensor on {sc.what} ({_show(sc.expr, 120)}): the tensor rebuilt on the minimised indices is "
+                  f"{[talg.show_factor(f) if f else '0' for f in got_f]} (constructor calls {built}); the removed tensor on these "
+                  f"indices is {[talg.show_factor(f) for f in want_f]}", key=f"remove_tensor {sc.id} rebuilt")
+        if not sc.roundtrip or len(sc.expr.t) != 1 or not trace:
+            continue
+        blocks = [k for k in val if k != ("none",)]
+        if len(blocks) != 1:
+            continue
+        B = val[blocks[0]].attrs["val"]
+        term = trace[0][0]
+        if len(trace) == 1:
+            # R14b (i): the block expression carries the symmetry of the tensor block
+            rm = trace[0][3]
+            bad = [(seq, chi) for seq, chi in rm.group if B.permute(seq) != B * chi]
+            ctx.check("R14b", fn, not bad,
+                      f"remove_tensor [{sc.what}]: g(B) = chi(g) B for the {len(rm.group)} operations of {talg.show_factor(rm.tensor)}",
+                      f"remove_tensor on {sc.what} ({_show(sc.expr, 120)}): the block expression {_show(B, 200)} is not "
+                      f"{'anti' if bad and bad[0][1] < 0 else ''}symmetric under {bad[0][0] if bad else ''} although the removed tensor "
+                      f"block {talg.show_factor(rm.tensor)} is", key=f"remove_tensor {sc.id} symmetry")
+        # R14b (ii): contracting the block expression with the removed tensor blocks gives kappa times the original term
+        n_occ = len(blocks[0])
+        levels = []
+        for k in range(n_occ):
+            cands = [t[3] for t in trace if _n_occurrences(t[0], sc.t) == n_occ - k]
+            tens, kap = {c.tensor for c in cands}, {c.kappa for c in cands}
+            if len(tens) != 1 or len(kap) != 1:
+                levels = None
+                break
+            levels.append((tens.pop(), kap.pop()))
+        if not levels:
+            continue
+        (m, c), = term.t.items()
+        tg = sc.target if sc.target is not None else talg.einstein_target(m)
+        lhs, kappa = B, Poly.num(1)
+        for t, kp in levels:
+            lhs = lhs * Poly.factor(t)
+            kappa = kappa * kp
+        shown = " x ".join(talg.show_factor(t) for t, _ in levels)
+        eq, ca, cb = talg.contraction_equal(lhs, term * kappa, tg)
+        ctx.check("R14b" if same else sc.rule, fn, eq,
+                  f"remove_tensor [{sc.what}]: B x {shown} = {_show(kappa, 40)} x the original term",
+                  f"remove_tensor on {sc.what} ({_show(sc.expr, 120)}): the block expression contracted with the tensor block(s) "
+                  f"{shown} gives {_show(ca, 200)}; {_show(kappa, 40)} times the original term is {_show(cb, 200)} "
+                  f"(contracted indices renamed canonically, deltas resolved)", key=f"remove_tensor {sc.id} round trip")
+    ctx.floor("R14a", f"remove_tensor {label} scenarios evaluated".replace("  ", " "), n, 40)
+    # input guards
+    if guards and ctx.want("R14e"):
+        g = Sc("guards", "R14e", "input guards", A("d", "k", "c") * N("x", "kc"), "d")
+        for what, make in (("an expression that is no Expr", lambda w: dict(expr=w.sv(g.expr), t_name="d")),
+                           ("a plain number as expression", lambda w: dict(expr=3, t_name="d")),
+                           ("a tensor name that is no string", lambda w: dict(expr=w.expr(g.expr, w.assumptions()), t_name=5)),
+                           ("a list of names", lambda w: dict(expr=w.expr(g.expr, w.assumptions()), t_name=["d"]))):
+            kind, val, w = _evaluate(ctx, RM, g, make)
+            ctx.check("R14e", fn, kind == "raise" and val == "Inputerror", f"remove_tensor: {what} is refused (Inputerror)",
+                      f"remove_tensor accepts {what}: {kind} {val if kind == 'raise' else ''}", key=f"remove_tensor guard {what}")
+
+
+def check_derivative(ctx, scenarios=None, guards=True, label=""):
+    fn = ctx.model.fn(DV)
+    n = 0
+    for sc in (derivative_scenarios() if scenarios is None else scenarios):
+        holder = {}
+
+        def make(w, sc=sc, holder=holder):
+            holder["expr"] = w.expr(sc.expr, _assume(w, sc))
+            return dict(expr=holder["expr"], t_string=sc.t)
+        kind, val, w = _evaluate(ctx, DV, sc, make)
+        trace = []
+        try:
+            want = ref_derivative(sc.expr, sc.target, sc.t, trace)
+        except Expected as e:
+            want = e
+        n += 1
+        same = _compare(ctx, fn, "derivative", sc, kind, val, want, True)
+        if isinstance(want, Expected) or kind != "return" or not isinstance(val, dict) or not sc.roundtrip:
+            continue
+        if any(tmodel.kind(v) != "expr" for v in val.values()):
+            continue
+        # contraction with a variation of the tensor's symmetry = first-order change
+        blocks = {}
+        consistent = True
+        for term, k, f, e, f2, s in trace:
+            key = _block(f2)
+            if blocks.setdefault(key, f2) != f2:
+                consistent = False
+        if not consistent or set(blocks) != set(val):
+            continue
+        var = lambda f: (("A", f[1], "var_" + f[2]) + f[3:]) if f[0] == "A" else ("N", "var_" + f[1], f[2])
+        lhs = Poly()
+        for key, f2 in blocks.items():
+            lhs = lhs + val[key].attrs["val"] * Poly.factor(var(f2))
+        rhs = Poly()
+        tg = set()
+        for term in sc.expr.terms():
+            (m, c), = term.t.items()
+            tg |= set(sc.target if sc.target is not None else talg.einstein_target(m))
+            for f, e in m:
+                if talg.factor_name(f) != sc.t:
+                    continue
+                d = dict(m)
+                d[f] = e - 1
+                d[var(f)] = d.get(var(f), 0) + 1
+                kk, mm = talg._norm_mono(d)
+                rhs = rhs + Poly({mm: c * kk * e})
+        eq, ca, cb = talg.contraction_equal(lhs, rhs, tg)
+        ctx.check("R14b" if same else sc.rule, fn, eq, f"derivative [{sc.what}]: sum over blocks of dE/dD x var(D) = first-order change of E",
+                  f"derivative on {sc.what} ({_show(sc.expr, 120)}): contracting the block derivatives with a variation of the tensor "
+                  f"gives {_show(ca, 200)}; the first-order change of the expression is {_show(cb, 200)}", key=f"derivative {sc.id} variation")
+    ctx.floor("R14b", f"derivative {label} scenarios evaluated".replace("  ", " "), n, 18)
+    if guards and ctx.want("R14e"):
+        g = Sc("guards", "R14e", "input guards", A("d", "k", "c") * N("x", "kc"), "d")
+        kind, val, w = _evaluate(ctx, DV, g, lambda w: dict(expr=w.expr(g.expr, w.assumptions()), t_string=5))
+        ctx.check("R14e", fn, kind == "raise" and val == "TypeError", "derivative: a tensor name that is no string is refused (TypeError)",
+                  f"derivative accepts a tensor name that is no string: {kind} {val if kind == 'raise' else ''}", key="derivative guard name")
+        # a bare sympy-level expression is wrapped
+        kind, val, w = _evaluate(ctx, DV, g, lambda w: dict(expr=w.sv(g.expr), t_string="d"))
+        want = {k: v[0] for k, v in ref_derivative(g.expr, None, "d").items()}
+        ok = kind == "return" and isinstance(val, dict) and set(val) == set(want) and \
+            all(tmodel.kind(v) == "expr" and v.attrs["val"] == want[k] for k, v in val.items())
+        ctx.check("R14e", fn, ok, "derivative: an unwrapped expression is put into a container", "derivative of an unwrapped expression "
+                  f"gives {kind} {val}", key="derivative unwrapped")
+
+
+def r08g(ctx):
+    """The index primitives the model takes for granted, evaluated from the library source: minimize_tensor_indices on all
+    index tuples of length <= 3 over {i, j, k, a, b} and get_lowest_avail_indices on a table of requests."""
+    import itertools
+    rule = "R08g"
+    fn = ctx.model.fn("indices:minimize_tensor_indices")
+    names = ["i", "j", "k", "a", "b"]
+    targets_list = [{}, {("occ", ""): ["j"]}, {("occ", ""): ["i"], ("virt", ""): ["a"]}, {("occ", ""): ["k", "j"]}]
+    w = tmodel.World()
+    b = tmodel.Binding(w)
+    hooks = {"Permutation": lambda sx, a, kw: tuple(a), "PermutationProduct": lambda sx, a, kw: tuple(sx.iterate(a[0], None))}
+    sx = b.make(ctx.model, "minimize_tensor_indices", extra_hooks=hooks, inline=lambda q: q not in (
+        "indices:get_lowest_avail_indices", "indices:get_symbols"))
+    n = 0
+    for length in (1, 2, 3):
+        for tpl in itertools.product(names, repeat=length):
+            for tg in targets_list:
+                n += 1
+                label = f"{''.join(tpl)} targets={sorted(x for v in tg.values() for x in v)}"
+                outs = sx.run(fn, lambda: dict(tensor_indices=w.indices([ix(x) for x in tpl]),
+                                               target_idx_names={k: list(v) for k, v in tg.items()}))
+                if len(outs) != 1 or outs[0].kind != "return":
+                    ctx.bad(rule, fn, f"minimize_tensor_indices on {label}: {outs}", key=f"min {label}")
+                    continue
+                try:
+                    res, perms = outs[0].value
+                    out = [r.attrs["_ix"] for r in res]
+                    seq = [(p.attrs["_ix"], q.attrs["_ix"]) for p, q in perms]
+                except (TypeError, ValueError, AttributeError, KeyError):
+                    ctx.bad(rule, fn, f"minimize_tensor_indices on {label} returns {outs[0].value!r}", key=f"min {label}")
+                    continue
+                cur = [ix(x) for x in tpl]
+                for p, q in seq:
+                    cur = [q if c == p else p if c == q else c for c in cur]
+                # expected: targets stay, the others get the lowest non-target names in order of first appearance
+                tnames = {x for v in tg.values() for x in v}
+                free = {sp: [c for c in talg.SPACES[sp] if c not in tnames] for sp in talg.SPACES}
+                wm = {}
+                for x in tpl:
+                    if x not in wm:
+                        wm[x] = x if x in tnames else free[talg.space_of(x)].pop(0)
+                want = [ix(wm[x]) for x in tpl]
+                model = talg.minimize([ix(x) for x in tpl], {k: tuple(v) for k, v in tg.items()})[0]
+                ok = out == want and cur == out and list(model) == want
+                ctx.check(rule, fn, ok, f"{label} -> {''.join(wm[x] for x in tpl)}",
+                          f"minimize_tensor_indices({label}) gives {''.join(x[0] for x in out)} (its permutations give "
+                          f"{''.join(x[0] for x in cur)}); the lowest unused non-target names in order of first appearance are "
+                          f"{''.join(x[0] for x in want)}", key=f"min {label}")
+    ctx.floor(rule, "index tuples minimised", n, 400)
+    gl = ctx.model.fn("indices:get_lowest_avail_indices")
+    sx = b.make(ctx.model, "get_lowest_avail_indices", no_hooks=("get_lowest_avail_indices",))
+    m = 0
+    for space, letters in talg.SPACES.items():
+        for cnt in (0, 1, 2, 3, 9):
+            for used in ([], [letters[0]], [letters[1], letters[0]], list(letters), list(letters[:3]) + [letters[0] + "1"],
+                         [letters[2] + "7"]):
+                m += 1
+                outs = sx.run(gl, lambda: dict(n=cnt, used=list(used), space=space))
+                want = talg.lowest_avail(cnt, used, space)
+                got = outs[0].value if len(outs) == 1 and outs[0].kind == "return" else outs
+                ctx.check(rule, gl, got == want, f"get_lowest_avail_indices({cnt}, {used}, {space}) = {want}",
+                          f"get_lowest_avail_indices({cnt}, {used}, {space}) gives {got}; the {cnt} lowest unused names are {want}",
+                          key=f"lowest {space} {cnt} {''.join(used)}")
+    ctx.floor(rule, "requests for lowest available names", m, 60)
+
+
+def permute_model(ctx):
+    """Container.permute evaluated from source: the substitution handed to ``subs`` is the composition of the
+    transpositions in the given order (what the model's ``permute`` implements)."""
+    import itertools
+    rule = "R08g"
+    fn = ctx.model.fn("expr_container:Container.permute")
+    w = tmodel.World()
+    b = tmodel.Binding(w)
+    captured = []
+
+    def subs(sx, a, kw):
+        captured.append(a[1])
+        return a[0]
+    hooks = {"order_substitutions": lambda sx, a, kw: list(a[0].items()), "subs": subs}
+    sx = b.make(ctx.model, "Container.permute", extra_hooks=hooks)
+    names = [ix(x) for x in "ijk"] + [ix("a"), ix("b")]
+    pairs = [(p, q) for p, q in itertools.combinations(names, 2) if talg.space_of(p[0]) == talg.space_of(q[0])]
+    seqs = [()] + [(p,) for p in pairs] + list(itertools.product(pairs, repeat=2)) + \
+        [(pairs[0], pairs[1], pairs[2]), (pairs[0], pairs[1], pairs[0]), (pairs[2], pairs[0], pairs[3], pairs[1])]
+    n = 0
+    for seq in seqs:
+        del captured[:]
+        probe = w.expr(Poly.num(1), w.assumptions())
+        outs = sx.run(fn, lambda: dict(self=probe, perms=tuple((w.index(p), w.index(q)) for p, q in seq)))
+        label = " ".join(f"P_{p[0]}{q[0]}" for p, q in seq) or "no permutation"
+        if len(outs) != 1 or outs[0].kind != "return" or len(captured) != 1:
+            ctx.bad(rule, fn, f"Container.permute({label}): {outs}", key=f"permute {label}")
+            continue
+        n += 1
+        try:
+            got = {k.attrs["_ix"]: v.attrs["_ix"] for k, v in captured[0]}
+        except (AttributeError, KeyError, TypeError, ValueError):
+            ctx.bad(rule, fn, f"Container.permute({label}) substitutes {captured[0]!r}", key=f"permute {label}")
+            continue
+        want = {}
+        for s0 in names:
+            c = s0
+            for p, q in seq:
+                c = q if c == p else p if c == q else c
+            want[s0] = c
+        ok = all(got.get(s0, s0) == want[s0] for s0 in names) and set(got) <= set(names)
+        ctx.check(rule, fn, ok, f"permute({label}) substitutes the composition of the transpositions",
+                  f"Container.permute({label}) substitutes {dict((k[0], v[0]) for k, v in got.items())}; applying the "
+                  f"transpositions one after another gives {dict((k[0], v[0]) for k, v in want.items() if k != v)}",
+                  key=f"permute {label}")
+    ctx.floor(rule, "permutation sequences composed", n, 20)
+
+
+def thorough_scenarios():
+    """Systematic table: tensor class x bra-ket symmetry x group sizes x names / targets."""
+    out = {"remove": [], "derivative": []}
+    occ, virt = "klmn", "cdef"
+    seen = set()
+    for cls in ("AntiSymmetricTensor", "SymmetricTensor", "Amplitude"):
+        for bks in (0, 1, -1):
+            for nu, nl in ((1, 1), (2, 2), (2, 1), (1, 2), (0, 2), (2, 0), (3, 3)):
+                for spaces in ("vo", "oo", "vv", "ov"):
+                    if bks and (nu != nl or (nu, nl) == (3, 3) and spaces != "vo"):
+                        continue
+                    if (nu, nl) == (3, 3) and cls != "AntiSymmetricTensor":
+                        continue
+                    pool = {"o": list(occ), "v": list(virt)}
+                    if spaces[0] == spaces[1] and nu + nl > 4:
+                        continue
+                    up = "".join(pool[spaces[0]].pop(0) for _ in range(nu))
+                    lo = "".join(pool[spaces[1]].pop(0) for _ in range(nl))
+                    try:
+                        t = A("T", up, lo, bks, cls)
+                    except (ModelError, AssertionError):
+                        continue
+                    # the tensor as it is stored (canonical form) fixes the order of the remainder's indices
+                    (m, c), = t.t.items()
+                    idx = "".join(s[0] for s in talg.factor_idx(m[0][0]))
+                    rest = N("x", idx[::-1])
+                    sid = f"{cls} bks={bks} {up}/{lo}"
+                    if sid in seen:
+                        continue
+                    seen.add(sid)
+                    for tname, adc in (("T", ()), ("Y", ("Y",))):
+                        if tname == "Y" and (cls != "Amplitude"):
+                            continue
+                        tt = A(tname, up, lo, bks, cls)
+                        out["remove"].append(Sc(f"{sid} {tname}", "R14a", f"{tname}^{up}_{lo} ({cls}, bra-ket symmetry {bks})",
+                                                num(2) * tt * rest, tname, adc=adc))
+                    out["derivative"].append(Sc(sid, "R14b", f"T^{up}_{lo} ({cls}, bra-ket symmetry {bks})", num(2) * t * rest, "T"))
+                    # a target index of the remainder reserves a name
+                    out["remove"].append(Sc(f"{sid} target", "R14c", f"T^{up}_{lo} ({cls}, bra-ket symmetry {bks}) next to targets i, a",
+                                            t * rest * N("y", "ia"), "T"))
+                    out["derivative"].append(Sc(f"{sid} target", "R14e", f"T^{up}_{lo} ({cls}, bra-ket symmetry {bks}) next to targets i, a",
+                                                t * rest * N("y", "ia"), "T"))
+    return out
+
+
+def run_thorough(ctx):
+    if any(ctx.want(r) for r in ("R14a", "R14b", "R14c", "R14d", "R14e")):
+        sc = thorough_scenarios()
+        check_remove(ctx, sc["remove"], guards=False, label="table")
+        check_derivative(ctx, sc["derivative"], guards=False, label="table")
 
 
 def run(ctx):
-    for r, f in (("R14a", r14a), ("R14b", r14b), ("R14c", r14c), ("R14d", r14d), ("R14e", r14e)):
-        if ctx.want(r):
-            f(ctx)
+    if any(ctx.want(r) for r in ("R14a", "R14b", "R14c", "R14d", "R14e")):
+        check_remove(ctx)
+        check_derivative(ctx)
     if ctx.want("R08g"):
-        from . import c08
-        c08.r08g(ctx)
+        r08g(ctx)
+        permute_model(ctx)
